@@ -6,7 +6,11 @@ Two ties to /repo (DESIGN.md 4.1, 4.2):
   * correspondence with coq/Num/Bsl.v: BSL._get_mh_ratio, _process_simulated, _init_round on constructed sampler
     objects, mean/cov/whitening/Warton as handed to multivariate_normal.logpdf by gaussian_syn_likelihood;
   * python side (py_check): static helpers vs the translated trees, round trip, log-Jacobian vs finite differences,
-    every likelihood vs an independent recomputation of its published formula.
+    every likelihood vs an independent recomputation of its published formula;
+  * wave 2: purity of every driven entry point (the caller's arrays are bit-identical after the call), HISTORIES of
+    likelihood evaluations that re-use the caller's observed / gamma / whitening array objects (Coq case CHist: every
+    evaluation against a fresh run of the stateless model on the values on record), and rounds of a hand-initialised
+    BSL sampler with the real robust likelihoods and the real slice samplers for gamma.
 """
 import math
 import types
@@ -124,6 +128,72 @@ class ScriptedRandom:
 
     def uniform(self):
         return self.us.pop(0)
+
+
+class Snap:
+    """bit-level snapshot of the arrays the harness hands to the code: `changed()` names those whose content, shape
+    or dtype differs afterwards (the caller's arrays must not be written to by a likelihood / transform / ratio call)"""
+
+    def __init__(self, **arrs):
+        self.items = {}
+        self.add(**arrs)
+
+    @staticmethod
+    def _sig(a):
+        return (a.shape, a.dtype.str, a.tobytes())
+
+    def add(self, **arrs):
+        for k, a in arrs.items():
+            if isinstance(a, np.ndarray):
+                self.items[k] = (a, self._sig(a))
+
+    def changed(self):
+        return sorted(k for k, (a, sig) in self.items.items() if self._sig(a) != sig)
+
+
+def lay_out(v, layout, dtype=float):
+    """an array with content v in one of the layouts a caller may hold it in: its own array, a strided view into a
+    larger array, a row of a 2-d state matrix (like state['gamma'][n]).  Returns (array, base or None)."""
+    v = np.array(v, dtype=dtype)
+    if layout == 'view':
+        base = np.full(2 * len(v) + 1, 7.5, dtype=dtype)
+        base[1::2] = v
+        return base[1::2], base
+    if layout == 'row':
+        base = np.full((3, len(v)), 7.5, dtype=dtype)
+        base[1] = v
+        return base[1], base
+    return v, None
+
+
+class RecRandom:
+    """random_state of a constructed sampler: a seeded numpy RandomState; the argument-less uniform draws (the
+    Metropolis-Hastings ones) are recorded"""
+
+    def __init__(self, seed):
+        self.rs = np.random.RandomState(seed)
+        self.us = []
+
+    def multivariate_normal(self, mean, cov):
+        return self.rs.multivariate_normal(mean, cov)
+
+    def exponential(self, scale):
+        return self.rs.exponential(scale)
+
+    def uniform(self, *a):
+        v = self.rs.uniform(*a)
+        if not a:
+            self.us.append(float(v))
+        return v
+
+
+def mis_from_moments(y, m, S, gamma, adj):
+    """published R-BSL-M / R-BSL-V log density from the sample moments"""
+    m, S, gamma = np.asarray(m, dtype=float), np.atleast_2d(np.asarray(S, dtype=float)), np.asarray(gamma, dtype=float)
+    sd = np.sqrt(np.diag(S))
+    if adj == 'mean':
+        return mvn_logpdf(np.ravel(y), m + sd * gamma, S)
+    return mvn_logpdf(np.ravel(y), m, S + np.diag(np.diag(S) * gamma ** 2))
 
 
 def make_sampler(cap, rows, bound, burn_in=0, rounds=None, acc=0):
@@ -245,7 +315,11 @@ class C20(PropCheck):
             'coordinate, or the [-700,700] clip active), step (_process_simulated with a stub likelihood; non-trivial = n>=1), '
             'init (_init_round with scripted proposals; non-trivial = at least one out-of-support proposal), lik '
             '(gaussian_syn_likelihood mean/cov plumbing in Coq; non-trivial = whitening or shrinkage or d>=2), val '
-            '(likelihood values vs independent formulas; all non-trivial); distinct by full case content')
+            '(likelihood values vs independent formulas; all non-trivial), hist (2-4 evaluations of one likelihood re-using the '
+            'caller\'s observed / gamma / whitening array objects, layouts own|strided view|matrix row, gamma dtypes f8|f4|i8, '
+            'simulated summaries in fresh arrays | one refilled buffer | the same array; all non-trivial), chain (rounds of a '
+            'hand-initialised BSL with the real robust likelihood and slice sampler; non-trivial = at least 2 likelihood '
+            'evaluations); every kind: the arrays handed to the code are bit-identical afterwards; distinct by full case content')
     trusted = ('translator harness/translate_c20.py (Python ast -> Gallina over R; numpy scalar + - * / log exp read as the real '
                'operations, rounding ignored); its output is additionally evaluated on floats against the real helpers on every tf case',
                'oracles: numpy exp/log/sqrt (recorded calls), scipy multivariate_normal.logpdf, numpy slogdet/solve/eigvalsh, '
@@ -422,10 +496,115 @@ class C20(PropCheck):
         self.bump('val:%s:d=%d' % (mode, d))
         return c
 
+    HIST_COQ = ('std', 'whiten', 'warton', 'whiten+warton', 'mis_mean', 'mis_var')
+
+    def dyadic_summaries(self, n, d, scales=None, W=None):
+        """n x d matrix of small dyadic rationals (exact in Q without big terms) with a well-conditioned covariance
+        (also after whitening with W): the property quantifies over non-singular covariances, and a 1e-8 comparison of
+        log densities is meaningless on ill-conditioned ones"""
+        r = self.rng
+        q = lambda s, m: r.randint(-m * s, m * s) / float(s)
+        for _ in range(50):
+            A = [[q(8, 2) for _ in range(d)] for _ in range(d)]
+            X = []
+            for _ in range(n):
+                z = [q(16, 3) for _ in range(d)]
+                X.append([(sum(A[i][j] * z[j] for j in range(d)) + z[i]) * (scales[i] if scales else 1.0) for i in range(d)])
+            C = np.atleast_2d(np.cov(np.array(X), rowvar=False))
+            Cw = C if W is None else np.array(W) @ C @ np.array(W).T
+            if np.all(np.diag(C) > 1e-3) and np.linalg.cond(C) < 1e5 and np.all(np.diag(Cw) > 1e-3) and np.linalg.cond(Cw) < 1e5:
+                return X
+        raise RuntimeError('no well-conditioned dyadic matrix found')
+
+    def gen_hist(self):
+        """a history of K evaluations of ONE likelihood in which the caller re-uses its observed / gamma / whitening
+        array objects (BSL hands gamma_sampler_state['gamma'], self.observed and self.simulated to the likelihood at
+        every round)"""
+        r = self.rng
+        mode = r.choice(['std', 'whiten', 'warton', 'whiten+warton', 'go', 'mis_mean', 'mis_mean', 'mis_var', 'mis_var', 'semi',
+                         'semi_warton'])
+        small = mode in self.HIST_COQ and r.random() < 0.6
+        K = r.randint(2, 4)
+        d1_ok = mode in ('std', 'warton', 'go')          # the other modes raise at d = 1 (known findings, kind val)
+        xbuf = r.choice(['fresh', 'fresh', 'buffer', 'buffer', 'same'])
+        nX = 1 if xbuf == 'same' else K
+        c = dict(kind='hist', mode=mode, coq=small, xbuf=xbuf, K=K, obs_2d=r.random() < 0.5,
+                 y_layout=r.choice(['own', 'own', 'view', 'row']), g_layout=r.choice(['own', 'own', 'view', 'row']),
+                 x_order=r.choice(['C', 'C', 'F']), g_dtype='f8')
+        if small:
+            d = r.choice([1, 2, 2, 3] if d1_ok else [2, 2, 3])
+            n = r.randint(d + 3, d + 6)
+            q = lambda s_, m: r.randint(-m * s_, m * s_) / float(s_)
+            if 'whiten' in mode:
+                c['W'] = [[q(8, 2) + (1.0 if i == j else 0.0) for j in range(d)] for i in range(d)]
+                if not np.linalg.cond(np.array(c['W'])) < 50:
+                    c['W'] = (np.eye(d) + np.diag([0.5] * (d - 1), 1)).tolist()
+            Xs = [self.dyadic_summaries(n, d, [r.choice([0.25, 1.0, 2.0, 4.0]) for _ in range(d)], c.get('W')) for _ in range(nX)]
+            y = [q(16, 2) for _ in range(d)]
+            if 'warton' in mode:
+                c['penalty'] = r.choice([0.0, 0.25, 0.5, 0.9, 1.0])
+            if mode == 'mis_mean':
+                c['gamma'] = [q(8, 2) for _ in range(d)]
+            if mode == 'mis_var':
+                c['gamma'] = [abs(q(8, 2)) for _ in range(d)]
+        else:
+            d = r.choice([1, 2, 3, 4, 6] if d1_ok else [2, 3, 4, 6])
+            n = r.randint(d + 4, d + 60)
+            nr = np.random.RandomState(r.randrange(2 ** 31))
+            Xs = []
+            mu = 3 * nr.randn(d)                   # one location for the whole history: y stays in the bulk of every evaluation
+            for _ in range(nX):
+                sc = np.array([r.choice([0.3, 1.0, 2.0, 5.0]) for _ in range(d)])
+                Xs.append((mu + (nr.randn(n, d) @ (np.eye(d) + 0.5 * nr.randn(d, d))) * sc).tolist())
+            sd_min = np.min([np.array(x).std(0) for x in Xs], axis=0)
+            y = (mu + nr.randn(d) * sd_min * (r.choice([0.2, 1.0, 2.0]) if 'semi' not in mode else r.choice([0.2, 0.5]))).tolist()
+            if 'whiten' in mode:
+                W = np.eye(d) + 0.4 * nr.randn(d, d)
+                c['W'] = (W if np.linalg.cond(W) < 100 else np.eye(d) + np.diag([0.5] * (d - 1), 1)).tolist()
+            if 'warton' in mode:
+                c['penalty'] = r.choice([0.0, 0.1, 0.5, 0.9, 1.0])
+            if mode.startswith('mis'):
+                c['g_dtype'] = r.choice(['f8', 'f8', 'f8', 'f4', 'i8'])
+                if c['g_dtype'] == 'i8':
+                    c['gamma'] = [int(r.randint(0 if mode == 'mis_var' else -3, 3)) for _ in range(d)]
+                else:
+                    g = nr.randn(d) if mode == 'mis_mean' else np.abs(nr.randn(d))
+                    c['gamma'] = [float(np.float32(t)) if c['g_dtype'] == 'f4' else float(t) for t in g]
+        c.update(Xs=Xs, y=y)
+        self.bump('hist:%s:d=%d:K=%d:%s' % (mode, d, K, 'coq' if small else 'py'))
+        self.bump('hist:x=%s:order=%s' % (xbuf, c['x_order']))
+        self.bump('hist:y=%s%s' % (c['y_layout'], ':2d' if c['obs_2d'] else ''))
+        if 'gamma' in c:
+            self.bump('hist:gamma=%s:%s' % (c['g_layout'], c['g_dtype']))
+        return c
+
+    def gen_chain(self):
+        """rounds of a hand-initialised BSL sampler (real _init_state / _resolve_gamma_sampler / _init_round /
+        _process_simulated, real robust likelihood, real slice sampler for gamma) on scripted simulations"""
+        r = self.rng
+        adj = r.choice(['mean', 'variance'])
+        d = r.choice([2, 2, 3])
+        n_sim = r.randint(d + 3, d + 8)
+        R = r.randint(2, 5)
+        k = r.randint(1, 2)
+        use_tr = r.random() < 0.4
+        bound = self.rand_bound(k) if use_tr else None
+        bb = bound or [[None, None]] * k
+        p0 = [self.rand_inside(ab) for ab in bb]
+        lo = [x - r.uniform(0.2, 2) for x in p0]
+        hi = [x + r.uniform(0.2, 2) for x in p0]
+        q = lambda s_, m: r.randint(-m * s_, m * s_) / float(s_)
+        Xs = [self.dyadic_summaries(n_sim, d, [r.choice([0.25, 1.0, 2.0, 4.0]) for _ in range(d)]) for _ in range(R)]
+        sig = r.choice([0.05, 0.5, 3.0])
+        self.bump('chain:%s:d=%d:R=%d:%s:sigma=%s' % (adj, d, R, 'tr' if use_tr else 'plain', sig))
+        return dict(kind='chain', adjustment=adj, Xs=Xs, y=[q(16, 2) for _ in range(d)], R=R, bound=bound, params0=p0,
+                    prior_lo=lo, prior_hi=hi, prior_value=-0.5, sigma=sig, tau=r.choice([0.25, 0.5, 1.0]),
+                    w=r.choice([0.5, 1.0]), seed=r.randrange(2 ** 31))
+
     def generate(self):
         scale = 1 if self.tier == 'quick' else 12
         plan = [(self.gen_tf, 300), (self.gen_mh, 180), (self.gen_step, 150), (self.gen_init, 150), (self.gen_lik, 90),
-                (self.gen_val, 240)]
+                (self.gen_val, 240), (self.gen_hist, 150), (self.gen_chain, 60)]
         for g, n in plan:
             for _ in range(n * scale):
                 yield g()
@@ -438,7 +617,9 @@ class C20(PropCheck):
         from elfi.methods.inference.bsl import BSL
         b = bnd_arr(case['bound'])
         th = np.array(case['theta'], dtype=float)
+        snap = Snap(bound=b, theta=th)
         tt = BSL._para_logit_transform(th, b)
+        snap.add(theta_tilde=tt)
         back = BSL._para_logit_back_transform(tt, b)
         lj = float(BSL._jacobian_logit_transform(tt, b))
         # per coordinate (1-vectors) for the tree / finite-difference comparisons
@@ -450,7 +631,7 @@ class C20(PropCheck):
             up = float(BSL._para_logit_back_transform(np.array([yi + h]), bi)[0])
             dn = float(BSL._para_logit_back_transform(np.array([yi - h]), bi)[0])
             per.append(dict(y=yi, logJ=float(BSL._jacobian_logit_transform(np.array([yi]), bi)), fd=(up - dn) / (2 * h)))
-        return dict(tilde=[float(t) for t in tt], back=[float(t) for t in back], logJ=lj, per=per)
+        return dict(tilde=[float(t) for t in tt], back=[float(t) for t in back], logJ=lj, per=per, mutated=snap.changed())
 
     def run_mh(self, case):
         import elfi.methods.inference.bsl as bslmod
@@ -460,12 +641,14 @@ class C20(PropCheck):
         s.state['n_samples'] = n
         px = NpProxy()
         bslmod.np = px
+        snap = Snap(bound=s.logit_transform_bound, params=s.state['params'], logprior=s.state['logprior'],
+                    logposterior=s.state['logposterior'])
         try:
             ratio = float(s._get_mh_ratio())
         finally:
             bslmod.np = np
         arg, val = px.calls[-1]
-        out = dict(ratio=ratio, exp_arg=float(arg), exp_val=float(val))
+        out = dict(ratio=ratio, exp_arg=float(arg), exp_val=float(val), mutated=snap.changed())
         if case['bound'] is not None:
             out['jac_impl'] = [impl_jac_theta(case['p_new'], case['bound']), impl_jac_theta(case['p_prev'], case['bound'])]
             out['jac_spec'] = [spec_logjac_theta(case['p_new'], case['bound']), spec_logjac_theta(case['p_prev'], case['bound'])]
@@ -483,11 +666,12 @@ class C20(PropCheck):
         s.random_state = ScriptedRandom(us=[case['u']])
         px = NpProxy()
         bslmod.np = px
+        snap = Snap(bound=s.logit_transform_bound, simulated=s.simulated, observed=s.observed, sigma_proposals=s.sigma_proposals)
         try:
             s._process_simulated()
         finally:
             bslmod.np = np
-        out = dict(row=[[float(t) for t in s.state['params'][n]], float(s.state['logprior'][n]), float(s.state['logposterior'][n])],
+        out = dict(mutated=snap.changed(), row=[[float(t) for t in s.state['params'][n]], float(s.state['logprior'][n]), float(s.state['logposterior'][n])],
                    acc=int(s.num_accepted), n_samples=int(s.state['n_samples']),
                    earlier_untouched=bool(all(list(s.state['params'][i]) == list(case['rows'][i][0])
                                               and s.state['logprior'][i] == case['rows'][i][1]
@@ -512,6 +696,7 @@ class C20(PropCheck):
         s.random_state = ScriptedRandom(draws=case['draws'])
         sims = []
         s.prepare_new_batch = lambda *a, **k: sims.append(1)      # never called by _init_round; recorded if it were
+        snap = Snap(bound=s.logit_transform_bound, simulated=s.simulated, observed=s.observed, sigma_proposals=s.sigma_proposals)
         s._init_round()
         n2 = int(s.state['n_samples'])
         started = bool(s.state['n_sim_round'] == 0)
@@ -522,7 +707,7 @@ class C20(PropCheck):
             cand = [[float(t) for t in s.state['params'][n2]], float(s.state['logprior'][n2])]
         return dict(rows=rows, cand=cand, rounds=int(s.objective['round']), n_batches=int(s.objective['n_batches']),
                     consumed=len(s.prior.seen), started=started, proposals=s.prior.seen, means=s.random_state.means,
-                    draws_used=len(case['draws']) - len(s.random_state.draws), sims=len(sims))
+                    draws_used=len(case['draws']) - len(s.random_state.draws), sims=len(sims), mutated=snap.changed())
 
     def _lik_call(self, fn, *a, **k):
         import elfi.methods.bsl.pdf_methods as pm
@@ -544,10 +729,11 @@ class C20(PropCheck):
             kw['whitening'] = np.array(case['W'], dtype=float)
         if case['penalty'] is not None:
             kw.update(shrinkage='warton', penalty=case['penalty'])
+        snap = Snap(ssx=X, ssy=y, whitening=kw.get('whitening'))
         v, calls = self._lik_call(pm.gaussian_syn_likelihood, X, y, **kw)
         assert len(calls) == 1
         yy, m, C = calls[0]
-        out = dict(loglik=float(np.asarray(v).reshape(-1)[0]), y=np.atleast_1d(yy).tolist(), mean=np.atleast_1d(m).tolist(),
+        out = dict(mutated=snap.changed(), loglik=float(np.asarray(v).reshape(-1)[0]), y=np.atleast_1d(yy).tolist(), mean=np.atleast_1d(m).tolist(),
                    cov=np.atleast_2d(C).tolist())
         if case['penalty'] is not None:
             Xw = X @ np.array(case['W']).T if case['W'] is not None else X
@@ -561,20 +747,23 @@ class C20(PropCheck):
         y = np.array(case['y'], dtype=float)
         yo = y.reshape(1, -1) if case.get('obs_2d') else y
         mode = case['mode']
+        gam = np.array(case['gamma'], dtype=float) if 'gamma' in case else None
+        snap = Snap(ssx=X, ssy=yo, gamma=gam)
         try:
             if mode in ('std', 'whiten', 'warton', 'whiten+warton'):
                 kw = {}
                 if 'W' in case:
                     kw['whitening'] = np.array(case['W'])
+                    snap.add(whitening=kw['whitening'])
                 if 'penalty' in case:
                     kw.update(shrinkage='warton', penalty=case['penalty'])
                 v = pm.gaussian_syn_likelihood(X, yo, **kw)
             elif mode in ('go', 'go_far'):
                 v = pm.gaussian_syn_likelihood_ghurye_olkin(X, yo)
             elif mode == 'mis_mean':
-                v = pm.syn_likelihood_misspec(X, yo, np.array(case['gamma']), 'mean')
+                v = pm.syn_likelihood_misspec(X, yo, gam, 'mean')
             elif mode == 'mis_var':
-                v = pm.syn_likelihood_misspec(X, yo, np.array(case['gamma']), 'variance')
+                v = pm.syn_likelihood_misspec(X, yo, gam, 'variance')
             elif mode == 'semi':
                 v, _ = self._lik_call(pm.semi_param_kernel_estimate, X, yo)
             elif mode == 'semi_warton':
@@ -582,15 +771,154 @@ class C20(PropCheck):
             else:
                 raise ValueError(mode)
         except Exception as e:      # a likelihood that raises has no value: reported by py_val
-            return dict(loglik=None, raised='%s: %s' % (type(e).__name__, e))
-        return dict(loglik=float(np.asarray(v).reshape(-1)[0]))
+            return dict(loglik=None, raised='%s: %s' % (type(e).__name__, e), mutated=snap.changed())
+        return dict(loglik=float(np.asarray(v).reshape(-1)[0]), mutated=snap.changed())
+
+    def run_hist(self, case):
+        import elfi.methods.bsl.pdf_methods as pm
+        mode, K = case['mode'], case['K']
+        d = len(case['y'])
+        y, y_base = lay_out(case['y'], case['y_layout'])
+        yo = y[None, :] if case.get('obs_2d') else y
+        arrs = dict(ssy=yo, ssy_base=y_base)
+        kw = {}
+        if 'W' in case:
+            kw['whitening'] = np.array(case['W'], dtype=float)
+        if 'penalty' in case:
+            kw.update(shrinkage='warton', penalty=case['penalty'])
+        if 'gamma' in case:
+            gam, g_base = lay_out(case['gamma'], case['g_layout'], dtype={'f8': np.float64, 'f4': np.float32, 'i8': np.int64}[case['g_dtype']])
+            arrs.update(gamma=gam, gamma_base=g_base)
+        arrs.update(whitening=kw.get('whitening'))
+        if mode in ('std', 'whiten', 'warton', 'whiten+warton'):
+            fn = lambda X: pm.gaussian_syn_likelihood(X, yo, **kw)
+        elif mode == 'go':
+            fn = lambda X: pm.gaussian_syn_likelihood_ghurye_olkin(X, yo)
+        elif mode in ('mis_mean', 'mis_var'):
+            lik = pm.robust_likelihood({'mis_mean': 'mean', 'mis_var': 'variance'}[mode])
+            fn = lambda X: lik(X, yo, gamma=gam)          # the way BSL._process_simulated calls it
+        elif mode in ('semi', 'semi_warton'):
+            fn = lambda X: pm.semi_param_kernel_estimate(X, yo, **kw)
+        else:
+            raise ValueError(mode)
+        Xs = [np.array(x, dtype=float, order=case['x_order']) for x in case['Xs']]
+        buf = np.zeros_like(Xs[0], order=case['x_order'])
+        vals, raised, mutated, args, sds = [], [], [], [], []
+        for k in range(K):
+            if case['xbuf'] == 'buffer':
+                buf[...] = Xs[k]
+                X = buf
+            elif case['xbuf'] == 'same':
+                X = Xs[0]
+            else:
+                X = Xs[k]
+            Xk = np.array(X, dtype=float)
+            snap = Snap(ssx=X, **arrs)
+            try:
+                v, calls = self._lik_call(fn, X)
+                vals.append(float(np.asarray(v).reshape(-1)[0]))
+                raised.append(None)
+            except Exception as e:
+                v, calls = None, []
+                vals.append(None)
+                raised.append('%s: %s' % (type(e).__name__, e))
+            mutated.extend('%s (evaluation %d of %d)' % (nm, k + 1, K) for nm in snap.changed())
+            args.append([np.atleast_1d(calls[0][0]).tolist(), np.atleast_1d(calls[0][1]).tolist(), np.atleast_2d(calls[0][2]).tolist()]
+                        if len(calls) == 1 else None)
+            # oracle square roots for the model (of the summaries of THIS evaluation)
+            Xw = Xk @ np.array(case['W']).T if 'W' in case else Xk
+            S = np.atleast_2d(np.cov(Xw, rowvar=False))
+            sds.append([float(t) for t in (np.sqrt(np.diag(S + 1e-5)) if 'penalty' in case else np.sqrt(np.diag(S)))])
+        return dict(vals=vals, raised=raised, mutated=mutated, args=args, sd=sds)
+
+    def run_chain(self, case):
+        import elfi.methods.bsl.pdf_methods as pm
+        from elfi.methods.inference.bsl import BSL
+        adj, R = case['adjustment'], case['R']
+        y = np.array(case['y'], dtype=float)
+        d, k = len(y), len(case['params0'])
+        Xs = [np.array(x, dtype=float) for x in case['Xs']]
+        s = object.__new__(BSL)
+        s.state, s.objective = {}, {}
+        s.param_names = ['p%d' % i for i in range(k)]
+        s.prior = BoxPrior(case['prior_lo'], case['prior_hi'], case['prior_value'])
+        s.is_misspec = True
+        s.likelihood = pm.robust_likelihood(adj)
+        s.observed = y.reshape(1, d).copy()
+        s.simulated = np.zeros_like(Xs[0])
+        s.n_sim_round = Xs[0].shape[0]
+        s.computation_context = types.SimpleNamespace(batch_size=Xs[0].shape[0])
+        s.random_state = RecRandom(case['seed'])
+        s.sigma_proposals = case['sigma'] * np.eye(k)
+        s.burn_in = 0
+        s.logit_transform_bound = None if case['bound'] is None else bnd_arr(case['bound'])
+        s.gamma_sampler_state = {}
+        s.gamma_sampler, gamma0 = s._resolve_gamma_sampler(case['tau'], case['w'], 1000)
+        s._init_state(R, np.array(case['params0'], dtype=float), gamma0)
+        s.set_objective(R)
+        real, liks = s.likelihood, []
+
+        def lik(ssx, ssy, gamma):
+            rec = dict(gamma_in=np.array(gamma, copy=True).tolist(), n=int(s.state['n_samples']))
+            snap = Snap(gamma=gamma, ssx=ssx, ssy=ssy)
+            v = real(ssx, ssy, gamma=gamma)
+            rec.update(val=float(v), mutated=snap.changed())
+            liks.append(rec)
+            return v
+        s.likelihood = lik
+
+        def gss():
+            g = s.gamma_sampler_state
+            return dict(gamma=np.array(g['gamma'], dtype=float).tolist(), loglik=float(g['loglik']) if 'loglik' in g else None,
+                        sample_mean=np.array(g['sample_mean']).tolist() if 'sample_mean' in g else None,
+                        sample_cov=np.array(g['sample_cov']).tolist() if 'sample_cov' in g else None)
+        px = SsProxy()
+        old, pm.ss = pm.ss, px
+        rounds, mutated = [], []
+        try:
+            xi = 0
+            while s.state['n_samples'] < R and xi < len(Xs):
+                n = int(s.state['n_samples'])
+                s.simulated[:] = Xs[xi]
+                rec = dict(n=n, x=xi, gamma_on_record=s.state['gamma'][n].tolist(), cand=s.state['params'][n].tolist(),
+                           lprior=float(s.state['logprior'][n]), acc0=int(s.num_accepted), n_lik=len(liks), n_u=len(s.random_state.us),
+                           prev=None if n == 0 else [s.state['params'][n - 1].tolist(), float(s.state['logprior'][n - 1]),
+                                                     float(s.state['logposterior'][n - 1])])
+                xi += 1
+                snap = Snap(observed=s.observed, simulated=s.simulated, sigma_proposals=s.sigma_proposals, bound=s.logit_transform_bound)
+                s._process_simulated()
+                mutated.extend('%s (round %d)' % (nm, n) for nm in snap.changed())
+                rec.update(accepted=int(s.num_accepted) - rec['acc0'], us=s.random_state.us[rec['n_u']:],
+                           row=[s.state['params'][n].tolist(), float(s.state['logprior'][n]), float(s.state['logposterior'][n])],
+                           gamma_row_after=s.state['gamma'][n].tolist(), after=gss(), n_after=int(s.state['n_samples']))
+                s.state['round'] += 1                       # what ModelBased.update does around _process_simulated
+                if s.state['round'] < s.objective['round']:
+                    s._init_round()
+                    n2 = int(s.state['n_samples'])
+                    m = min(n2, R - 1)                      # the last row _init_round wrote a gamma to
+                    rec['init'] = dict(n=n2, m=m, gss=gss(), gamma_row=s.state['gamma'][m].tolist(),
+                                       lpost_prev=float(s.state['logposterior'][m - 1]), lprior_prev=float(s.state['logprior'][m - 1]))
+                rounds.append(rec)
+        finally:
+            pm.ss = old
+        for l in liks:
+            mutated.extend('%s (likelihood call in round %d)' % (nm, l['n']) for nm in l['mutated'])
+        args = [[np.atleast_1d(a).tolist(), np.atleast_1d(b).tolist(), np.atleast_2d(c).tolist()] for a, b, c in px.calls]
+        sds = [[float(t) for t in np.sqrt(np.diag(np.cov(Xs[r_['x']], rowvar=False)))] for r_ in rounds]
+        return dict(rounds=rounds, liks=liks, args=args, sd=sds, mutated=mutated)
 
     # -- python-side clauses ---------------------------------------------------------------------------
     def py_check(self, case, out):
         """common.run_check prints one VIOLATION per distinct detail text: after the first two failures of a
         clause the text is constant, so a systematic break gives a handful of replays, not hundreds."""
         res = []
-        for clause, msg in getattr(self, 'py_' + case['kind'])(case, out):
+        found = list(getattr(self, 'py_' + case['kind'])(case, out))
+        if out.get('mutated'):
+            # purity: the statement is about VALUES of functions of the summaries / parameters; a call that writes to the
+            # caller's arrays changes what the next evaluation (same objects, as in BSL's sampler) is computed from
+            found.insert(0, ('inputs_unchanged', '%s case: the caller\'s array(s) %s were modified by the call'
+                             % (case['kind'], ', '.join(str(m) for m in out['mutated']))))
+        for clause, msg in found:
             k = (clause, self.classify(case, out, clause))      # known findings do not use up the detailed slots
             c = self._py_seen.get(k, 0)
             self._py_seen[k] = c + 1
@@ -729,6 +1057,97 @@ class C20(PropCheck):
                      '%s, n=%d, d=%d: returned %r, published formula %r' % (case['mode'], len(case['X']), d, out['loglik'], want))]
         return []
 
+    def py_hist(self, case, out):
+        bad = []
+        K, mode = case['K'], case['mode']
+        for k in range(K):
+            sub = dict(case, X=case['Xs'][0 if case['xbuf'] == 'same' else k])
+            want = self.spec_val(sub)
+            if want is None:
+                self.bump('val:semi:ill-conditioned-or-singular-not-compared')
+                continue
+            got = out['vals'][k]
+            if got is None or not self._close(got, want, 1e-8):
+                bad.append(('history_value[%s]' % mode,
+                            '%s, d=%d: evaluation %d of %d on the same observed/gamma/whitening arrays %s, the published formula '
+                            'for the values the caller put into these arrays gives %r'
+                            % (mode, len(case['y']), k + 1, K, 'raised ' + str(out['raised'][k]) if got is None else 'returned %r' % got,
+                               want)))
+                break
+        if case['xbuf'] == 'same' and len(set(map(repr, out['vals']))) != 1:
+            bad.append(('repeat_identical', 'the same call on the same arrays gave different values: %r' % (out['vals'],)))
+        return bad
+
+    def py_chain(self, case, out):
+        bad = []
+        adj = case['adjustment']
+        y = np.array(case['y'], dtype=float)
+        mode = {'mean': 'mis_mean', 'variance': 'mis_var'}[adj]
+
+        def coherent(g):
+            """the slice sampler's current log-likelihood belongs to its current gamma and moments"""
+            if g['loglik'] is None or g['sample_mean'] is None:
+                return True, None
+            want = mis_from_moments(y, g['sample_mean'], g['sample_cov'], g['gamma'], adj)
+            return self._close(g['loglik'], want, 1e-8), want
+        for rec in out['rounds']:
+            n = rec['n']
+            if len(out['liks']) <= rec['n_lik'] or out['liks'][rec['n_lik']]['n'] != n:
+                bad.append(('round_one_likelihood_call', 'round %d: no likelihood evaluation recorded' % n))
+                break
+            l = out['liks'][rec['n_lik']]
+            g = rec['gamma_on_record']
+            if l['gamma_in'] != g:
+                bad.append(('round_gamma_on_record', 'round %d: the likelihood was evaluated with gamma %r, the chain records gamma %r '
+                            'for this round' % (n, l['gamma_in'], g)))
+            want = self.spec_val(dict(mode=mode, X=case['Xs'][rec['x']], y=case['y'], gamma=g))
+            if not self._close(l['val'], want, 1e-8):
+                bad.append(('round_likelihood_formula[%s]' % mode, 'round %d: synthetic log-likelihood %r, published formula at the gamma '
+                            'on record %r gives %r' % (n, l['val'], g, want)))
+            if rec['after']['gamma'] != g or rec['gamma_row_after'] != g:
+                bad.append(('sampler_gamma_kept', 'round %d: after _process_simulated the gamma sampler holds %r (chain row: %r), the '
+                            'gamma of this round is %r' % (n, rec['after']['gamma'], rec['gamma_row_after'], g)))
+            okc, wantc = coherent(rec['after'])
+            if not okc:
+                bad.append(('sampler_state_coherent', 'round %d: after _process_simulated the gamma sampler state pairs loglik %r with '
+                            'gamma %r, whose adjusted log-likelihood at the stored moments is %r' % (n, rec['after']['loglik'],
+                                                                                                    rec['after']['gamma'], wantc)))
+            # the row written: candidate with loglik + logprior when accepted, the previous row otherwise
+            lpost_new = l['val'] + rec['lprior']
+            if rec['accepted']:
+                if rec['row'] != [rec['cand'], rec['lprior'], lpost_new]:
+                    bad.append(('round_row', 'round %d accepted: row %r, expected candidate with log posterior %r' % (n, rec['row'], lpost_new)))
+            elif rec['prev'] is None or rec['row'] != rec['prev']:
+                bad.append(('round_row', 'round %d rejected: row %r, previous row %r' % (n, rec['row'], rec['prev'])))
+            if n == 0 and not (rec['accepted'] and not rec['us']):
+                bad.append(('round_accept_rule', 'initialisation round not accepted or drew a uniform'))
+            if n > 0 and rec['prev'] is not None:
+                lj = 0.0
+                if case['bound'] is not None:
+                    lj = spec_logjac_theta(rec['cand'], case['bound']) - spec_logjac_theta(rec['prev'][0], case['bound'])
+                lr = lj + lpost_new - rec['prev'][2]
+                if len(rec['us']) != 1:
+                    bad.append(('round_accept_rule', 'round %d: %d uniform draws' % (n, len(rec['us']))))
+                elif math.isfinite(lr):
+                    prob = min(1.0, math.exp(max(-700.0, min(700.0, lr))))
+                    if abs(rec['us'][0] - prob) > 1e-6 * max(prob, 1e-300) * (1 + abs(lr)) and bool(rec['accepted']) != (rec['us'][0] < prob):
+                        bad.append(('round_accept_rule', 'round %d: u = %r, acceptance probability %r, accepted = %r'
+                                    % (n, rec['us'][0], prob, bool(rec['accepted']))))
+            ini = rec.get('init')
+            if ini is not None:
+                gs = ini['gss']
+                if gs['gamma'] != ini['gamma_row']:
+                    bad.append(('init_gamma_on_record', 'after _init_round the sampler holds gamma %r, the chain row %d records %r'
+                                % (gs['gamma'], ini['m'], ini['gamma_row'])))
+                okc, wantc = coherent(gs)
+                if not okc:
+                    bad.append(('sampler_state_coherent', 'after _init_round (n_samples %d) the gamma sampler state pairs loglik %r with '
+                                'gamma %r, whose adjusted log-likelihood at the stored moments is %r' % (ini['n'], gs['loglik'], gs['gamma'], wantc)))
+                if gs['loglik'] is not None and ini['lpost_prev'] != gs['loglik'] + ini['lprior_prev']:
+                    bad.append(('init_logposterior', 'after _init_round log posterior of row %d is %r, sampler loglik %r + log prior %r'
+                                % (ini['m'] - 1, ini['lpost_prev'], gs['loglik'], ini['lprior_prev'])))
+        return bad[:4]
+
     def classify(self, case, out, clause):
         if case['kind'] == 'val' and isinstance(out, dict) and out.get('loglik', 0) is None and len(case['y']) == 1:
             # known: these four modes raise on a single summary statistic; the standard / Warton / Ghurye-Olkin
@@ -762,6 +1181,8 @@ class C20(PropCheck):
             nt = len(out['rows']) > len(case['rows'])
         elif k == 'lik':
             nt = case['W'] is not None or case['penalty'] is not None or len(case['y']) >= 2
+        elif k == 'chain':
+            nt = len(out['liks']) >= 2
         return json.dumps(case, sort_keys=True) if nt else None
 
     # -- Coq terms ---------------------------------------------------------------------------------------
@@ -820,6 +1241,31 @@ class C20(PropCheck):
             sh = 'None' if case['penalty'] is None else '(Some (%s, %s))' % (cq(1 - case['penalty']), self.qv(out['sqrt_diag']))
             return 'CLik %s %s %s %s %s %s %s %s' % (cnat(len(case['y'])), self.qm(case['X']), self.qv(case['y']), W, sh,
                                                      self.qv(out['y']), self.qv(out['mean']), self.qm(out['cov']))
+        if k == 'hist':
+            if not case['coq'] or any(a is None for a in out['args']):
+                return None            # float-sized data, or an evaluation that raised / made no density call (py clauses)
+            mode = case['mode']
+            if mode in ('mis_mean', 'mis_var'):
+                v = 'VMean' if mode == 'mis_mean' else 'VVar'
+            else:
+                v = '(VStd %s %s)' % ('None' if 'W' not in case else '(Some %s)' % self.qm(case['W']),
+                                      'None' if 'penalty' not in case else '(Some %s)' % cq(1 - case['penalty']))
+            evs = []
+            for j in range(case['K']):
+                X = case['Xs'][0 if case['xbuf'] == 'same' else j]
+                a = out['args'][j]
+                evs.append('(mkEval %s %s %s %s %s %s)' % (self.qm(X), self.qv(case.get('gamma', [])), self.qv(out['sd'][j]),
+                                                           self.qv(a[0]), self.qv(a[1]), self.qm(a[2])))
+            return 'CHist %s %s %s %s' % (cnat(len(case['y'])), v, self.qv(case['y']), clist(evs))
+        if k == 'chain':
+            if len(out['args']) != len(out['rounds']):
+                return None
+            evs = []
+            for rec, a, sd in zip(out['rounds'], out['args'], out['sd']):
+                evs.append('(mkEval %s %s %s %s %s %s)' % (self.qm(case['Xs'][rec['x']]), self.qv(rec['gamma_on_record']), self.qv(sd),
+                                                           self.qv(a[0]), self.qv(a[1]), self.qm(a[2])))
+            return 'CHist %s %s %s %s' % (cnat(len(case['y'])), 'VMean' if case['adjustment'] == 'mean' else 'VVar',
+                                          self.qv(case['y']), clist(evs))
         return None
 
     # -- search after a broken proof / correspondence -----------------------------------------------------
